@@ -156,25 +156,27 @@ enum ChildResult {
     Crashed(String),
 }
 
-/// (cpu ms, process state letter) from /proc/<pid>/stat
-fn cpu_ms_of(pid: u32) -> (u64, char) {
+/// (user-mode cpu ms, user+system cpu ms, process state letter) from /proc/<pid>/stat
+fn cpu_ms_of(pid: u32) -> (u64, u64, char) {
     if let Ok(s) = std::fs::read_to_string(format!("/proc/{pid}/stat")) {
         if let Some(rest) = s.rsplit(')').next() {
             let f: Vec<&str> = rest.split_whitespace().collect();
             if f.len() > 12 {
                 let ut: u64 = f[11].parse().unwrap_or(0);
                 let st: u64 = f[12].parse().unwrap_or(0);
-                return ((ut + st) * 10, f[0].chars().next().unwrap_or('?'));
+                return (ut * 10, (ut + st) * 10, f[0].chars().next().unwrap_or('?'));
             }
         }
     }
-    (0, '?')
+    (0, 0, '?')
 }
 
-/// CPU budget after which an unfinished transaction counts as spinning: a transaction needs a few milliseconds of CPU,
-/// lock back-off sleeps (<= 50 ms here) do not consume CPU, so this is a margin of more than two orders of magnitude that
-/// does not depend on how loaded the machine is.
-const SPIN_CPU_MS: u64 = 1_000;
+/// CPU budget after which an unfinished transaction counts as spinning. A transaction needs a few milliseconds of CPU and lock
+/// back-off sleeps (<= 50 ms here) consume none. Measured from the first sample after the child was spawned (process
+/// creation itself can cost more than a second of *system* time on a badly overloaded machine): 2 s of user-mode time, or
+/// 15 s of user+system time, i.e. a margin of more than two orders of magnitude that does not depend on the machine load.
+const SPIN_USER_MS: u64 = 2_000;
+const SPIN_TOTAL_MS: u64 = 15_000;
 const STARVED_WALL_MS: u64 = 120_000;
 /// A child that is still alive after this wall time and was found in state S (sleeping voluntarily; a starved process is R)
 /// in >= 90 % of the samples taken after the first second is blocked for ever: no lock wait here exceeds 50 ms.
@@ -195,11 +197,15 @@ fn run_child(git_dir: &Path, tape: &[u8]) -> Result<ChildResult, String> {
     let start = Instant::now();
     let mut sleep_us = 500;
     let (mut samples, mut asleep) = (0u64, 0u64);
+    let mut base: Option<(u64, u64)> = None;
     let status = loop {
         match child.try_wait().map_err(|e| e.to_string())? {
             Some(st) => break st,
             None => {
-                let (cpu, state) = cpu_ms_of(child.id());
+                let (user, total, state) = cpu_ms_of(child.id());
+                let (user0, total0) = *base.get_or_insert((user, total));
+                let (user, total) = (user.saturating_sub(user0), total.saturating_sub(total0));
+                let cpu = if user >= SPIN_USER_MS || total >= SPIN_TOTAL_MS { total.max(SPIN_USER_MS) } else { 0 };
                 let wall = start.elapsed().as_millis() as u64;
                 if wall >= 1_000 {
                     samples += 1;
@@ -213,7 +219,7 @@ fn run_child(git_dir: &Path, tape: &[u8]) -> Result<ChildResult, String> {
                         asleep_pct: asleep * 100 / samples,
                     });
                 }
-                if cpu >= SPIN_CPU_MS {
+                if cpu > 0 {
                     let _ = child.kill();
                     let _ = child.wait();
                     return Ok(ChildResult::Spinning { cpu_ms: cpu, wall_ms: wall });
@@ -455,14 +461,14 @@ fn contention(t: &mut Tape, c: &mut Case) {
     }
 }
 
-fn main() {
+pub fn main() {
     let args: Vec<String> = std::env::args().collect();
     if args.len() == 4 && args[1] == "--c17-child" {
         child_main(&args[2], &args[3]);
     }
     let mut ck = Check::new("C17", "exploration");
     ck.rule("One C16-style transaction (1..4 edits, deref, all expectations, all PackedRefs modes) on a generated pre-state (loose/packed/both, symbolic chains, HEAD symbolic or detached) while a generated subset of `<ref>.lock` files of every ref the transaction touches incl. referents reached by dereferencing, and packed-refs.lock, are held by a foreign party; Fail::Immediately or back-off 1..50 ms per lock class. Non-trivial: the lock of a referent of a dereferenced symbolic edit is held. Distinct by hash of the decoded scenario.");
-    ck.assume("termination is decided by CPU time: a transaction process that has consumed 1 s of CPU without returning (normal: a few ms; back-off sleeps consume none) is spinning; a process that is alive after 20 s and was found sleeping (state S, not R) in >= 90 % of the samples is blocked for ever (longest configured lock wait 50 ms); a process that is merely starved for 120 s is inconclusive (exit 2)");
+    ck.assume("termination is decided by CPU time: a transaction process that has consumed 2 s of user-mode CPU (or 15 s user+system) after its start without returning (normal: a few ms; back-off sleeps consume none) is spinning; a process that is alive after 20 s and was found sleeping (state S, not R) in >= 90 % of the samples is blocked for ever (longest configured lock wait 50 ms); a process that is merely starved for 120 s is inconclusive (exit 2)");
     ck.assume("model of C16 decides the outcome when no lock is held; with held locks: an error leaves every file (refs, packed-refs, foreign locks) unchanged, LockAcquire names a ref of the transaction, PackedTransactionAcquire only when packed-refs.lock is held, non-lock errors only when the model rejects the transaction too");
     ck.sub(
         "contention",
